@@ -5,3 +5,5 @@ const verifBoundJournalBytes = 12
 const verifBoundBatch = 2
 const verifBoundRootRec = 16
 const verifBoundFile = 6
+const verifBoundIdxLookups = 2
+const verifBoundIdxFile = 72
